@@ -208,6 +208,10 @@ func string1(context Context, args ...Result) (Result, error) {
 }
 
 func concat(context Context, args ...Result) (Result, error) {
+	if len(args) < 2 {
+		return nil, errBadArgs
+	}
+
 	ret := strings.Builder{}
 
 	for _, i := range args {
